@@ -69,6 +69,10 @@ func (tt *TypeTable) sortOf(t types.Type) string {
 	switch x := t.(type) {
 	case *types.Named:
 		if _, ok := x.Underlying().(*types.Struct); ok {
+			if p := x.Obj().Pkg(); p != nil && !strings.HasPrefix(p.Path(), "reduction.dev/reduction") {
+				// library struct: opaque
+				return tt.usort("Ext_" + mangle(p.Path()+"."+x.Obj().Name()))
+			}
 			return tt.structSort(x)
 		}
 		if _, ok := x.Underlying().(*types.Interface); ok {
